@@ -91,7 +91,7 @@ struct Pr<'a> {
 fn is_simple(s: &Stmt) -> bool {
     matches!(
         s,
-        Stmt::Assign(..) | Stmt::Print(..) | Stmt::Read(..) | Stmt::Goto(..) | Stmt::Gosub(..) | Stmt::Return | Stmt::ReturnTo(..) | Stmt::CallSub(..) | Stmt::Resume(..) | Stmt::ResumeLabel(..) | Stmt::OnErrorGoto(..) | Stmt::Raw(..)
+        Stmt::Assign(..) | Stmt::Print(..) | Stmt::Read(..) | Stmt::Goto(..) | Stmt::Gosub(..) | Stmt::Return | Stmt::ReturnTo(..) | Stmt::CallSub(..) | Stmt::Resume(..) | Stmt::ResumeLabel(..) | Stmt::OnErrorGoto(..) | Stmt::Raw(..) | Stmt::Opaque { .. }
     )
 }
 
@@ -534,6 +534,13 @@ impl<'a> Pr<'a> {
                 format!("{}{}{}", a, s, self.kw(what))
             }
             Stmt::Raw(t) => t.clone(),
+            Stmt::Opaque { text, var, .. } => match var {
+                Some(l) => {
+                    let v = self.lvalue(l);
+                    text.replace("{v}", &v)
+                }
+                None => text.clone(),
+            },
             other => panic!("simple_text on non-simple statement {:?}", other),
         }
     }
